@@ -528,6 +528,10 @@ func raceChild(c *ev.Ctx, child, pkgFilter string) {
 		}
 		return
 	}
+	if strings.Contains(s, "GLOBAL-FIRST-USE-LOST") {
+		c.Violation("global-first-use", "the package-level disk wrappers were used by 8 goroutines before any Init: the writes all returned normally but some cannot be read back (several default disks were installed)\n"+tlc.Tail(s, 5), nil)
+		return
+	}
 	if strings.Contains(s, "fatal error: concurrent map") {
 		c.Violation("data-race", "Go runtime aborted with a concurrent map access inside the library under the concurrent driver\n"+tlc.Tail(s, 40),
 			map[string]string{"race-report.txt": s})
@@ -548,6 +552,33 @@ func raceDiskChild(args []string) int {
 	rounds := 30
 	if tier == "thorough" {
 		rounds = 200
+	}
+	// the package-level wrappers before any Init (first use from several goroutines at once): whatever they do
+	// (refuse by panicking, or install a default disk) they must not race, and completed writes must be readable
+	{
+		var wg sync.WaitGroup
+		var refused, lost atomic.Int64
+		for g := 0; g < 8; g++ {
+			wg.Add(1)
+			go func(g int) {
+				defer wg.Done()
+				if catchPanic(func() { disk.Write(uint64(g), pattern(g+1)) }) {
+					refused.Add(1)
+				}
+			}(g)
+		}
+		wg.Wait()
+		if refused.Load() == 0 {
+			for g := 0; g < 8; g++ {
+				var b []byte
+				if catchPanic(func() { b = disk.Read(uint64(g)) }) || classify(b, 16) != g+1 {
+					lost.Add(1)
+				}
+			}
+		}
+		if lost.Load() > 0 {
+			fmt.Printf("GLOBAL-FIRST-USE-LOST %d\n", lost.Load())
+		}
 	}
 	var nv int64
 	ops := 0
